@@ -23,7 +23,7 @@ REQUIRED_TAGS = ['update', 'error-update', 'callback', 'end-to-end']
 ACCEPTED_FLAGS = {'hash-of-nonintegral-real': 'see C01'}
 LIMITS = {'quick': {'max_paths': 30000, 'max_s': 150}, 'thorough': {'max_paths': 300000, 'max_s': 900}}
 
-MSGKINDS = ['update', 'error_update', 'reply', 'changed', 'error_read', 'unknown-param', 'shorthand', 'malformed']
+MSGKINDS = ['update', 'error_update', 'reply', 'changed', 'error_read', 'unknown-param', 'shorthand', 'malformed', 'shorthand-value']
 
 
 def cases(tier):
@@ -88,6 +88,8 @@ def node_and_description(env):
 
 def run_messages(env, p):
     srv, log, desc = node_and_description(env)
+    # the described module gets a main value, so that the bare module name is a legal shorthand in updates and replies too
+    desc['modules']['m']['accessibles']['value'] = {'description': 'main value', 'datainfo': {'type': 'double'}, 'readonly': True}
     clock = C.VirtualClock(env.real('now', 1000, 2000))
     cl = make_client(env, desc, clock)
     K = 'C12/messages'
@@ -171,6 +173,11 @@ def run_messages(env, p):
         elif kind == 'shorthand':
             key = ('m', 'target')
             rx(env, cl, ('changed', 'm', [x, {'t': t}]), K)
+            expect[key] = ('ok', x, M.sx.If(t <= now, t, now) if M.is_sym(t) or M.is_sym(now) else min(t, now))
+        elif kind == 'shorthand-value':
+            # the bare module name stands for <module>:value in every message but a change reply
+            key = ('m', 'value')
+            rx(env, cl, ('update', 'm', [x, {'t': t}]), K)
             expect[key] = ('ok', x, M.sx.If(t <= now, t, now) if M.is_sym(t) or M.is_sym(now) else min(t, now))
         elif kind == 'malformed':
             rx(env, cl, ('update', 'm:_pf', 'garbage'), K)
